@@ -21,12 +21,22 @@
       the digest THE MODEL computes (looked up in the oracle table, where it must verify), yields the
       library-signed transaction byte for byte; per input the predicted hash-type byte (the defaulted type) and
       the script SHAPE (two pushes: len(sig)+1 bytes ending in that byte, then the 33-byte key) are what the
-      library produced. *)
+      library produced;
+    - CALL PATHS ([k_ctxs]): the signed transaction - and its spent-value / spent-script mutants - handed to
+      Engine.Execute in the other ways the options allow (locking script through the previous output, through
+      WithScripts with a previous output that carries the value only, or both; unlocking script through the
+      input, through WithScripts with an input that has none, or both; the checked input of the object recording
+      nothing, what was signed, or another output; the other inputs with or without their recorded outputs):
+      the model of the call (model/EngineCall.v: apply_opts of model/ExecOpts.v for the scripts, the signature
+      opcodes on the object after thread.apply's bookkeeping) returns the observed verdict, and the verdict is
+      the one the table asks for (accept on the signed transaction, reject iff committed on a mutant).
+      (proofs/EngineCallProofs.v: on the model all these calls have the verdict of the canonical one, for every
+      oracle, transaction and script - [call_verdict_path_independent].) *)
 From Coq Require Import String List NArith ZArith Bool.
 From Coq Require Import Strings.Byte.
 From GoBT Require Import lib.Bytes lib.Hex lib.Sha256 lib.Ripemd160 model.Tx spec.DigestSpec spec.CommitSpec model.SigHash
   model.SigHashWire model.TxMutate model.ScriptNum model.Interp model.CheckSig model.Push model.Sign
-  proofs.SigHashProofs proofs.P2PKHProofs proofs.SignProofs corr.Corr.
+  model.ExecOpts model.EngineCall proofs.SigHashProofs proofs.P2PKHProofs proofs.SignProofs proofs.EngineCallProofs corr.Corr.
 Import ListNotations.
 Local Open Scope N_scope. Local Open Scope bool_scope.
 
@@ -41,6 +51,17 @@ Record mut_obs := mkMut {
     0 Tx.FillInput, 1 unlocker.Simple.UnlockingScript directly + Tx.InsertInputUnlockingScript, 2 Tx.FillAllInputs *)
 Record signed_in := mkSigned { si_idx : N; si_pk : bytes; si_sig : bytes; si_req : N; si_path : N }.
 
+(** one call of Engine.Execute on another path than WithTx(tx off the wire, idx, previous output with script and value) *)
+Record ctx_obs := mkCtxObs {
+  co_mut : option mutation;        (* None: on the signed transaction; Some m: on its mutant *)
+  co_lock_via : N;                 (* 0 previous output only, 1 WithScripts only (previous output: value only), 2 both *)
+  co_unlock_via : N;               (* 0 the input only, 1 WithScripts only (the input has no script), 2 both *)
+  co_rec_script : option bytes;    (* what the checked input of the object records BEFORE the call *)
+  co_rec_sats : N;
+  co_others_wire : bool;           (* the other inputs record no previous output *)
+  co_accept : bool
+}.
+
 Record case := mkCase {
   k_tx : tx;               (* the signed transaction; every input records its previous output *)
   k_idx : nat;             (* the input whose signature is put to the mutations *)
@@ -49,7 +70,8 @@ Record case := mkCase {
   k_signed : list signed_in;
   (* go-bk: (key, signature, digest) -> Signature.Verify *)
   k_ver : list (bytes * bytes * bytes * bool);
-  k_muts : list mut_obs
+  k_muts : list mut_obs;
+  k_ctxs : list ctx_obs
 }.
 
 Definition alg_of (ht : N) : digest_alg := if has_forkid ht then AlgForkid else AlgLegacy.
@@ -243,12 +265,46 @@ Definition check_mut (k : case) (orc : sig_oracle) (pre : sres) (mo : mut_obs) :
   effective_b (mo_m mo) ctx && nodup_b (tx_outs t') &&
   verdict_is (run_model orc t' (N.of_nat i') (k_flags k)) (mo_accept mo).
 
+(** ** call paths *)
+Definition via_of (n : N) : via := if n =? 0 then ViaObject else if n =? 1 then ViaScripts else ViaBoth.
+
+(** the call the harness made for input [i] of [t] (which records the spent output: script and value) *)
+Definition call_of (t : tx) (i : N) (flags : N) (o : ctx_obs) : option engine_call :=
+  match nthN (tx_ins t) i with
+  | None => None
+  | Some inp =>
+      match in_script inp with
+      | None => None
+      | Some lock =>
+          let t0 := if co_others_wire o
+                    then mkTx (tx_version t) (mapi (fun j x => if j =? i then x else strip_input x) (tx_ins t)) (tx_outs t) (tx_lock t)
+                    else t in
+          Some (call_for t0 i lock (in_unlock inp) (in_sats inp) flags (via_of (co_lock_via o)) (via_of (co_unlock_via o))
+                         (mkPrevOut (co_rec_script o) (co_rec_sats o)))
+      end
+  end.
+
+Definition check_ctx (k : case) (orc : sig_oracle) (o : ctx_obs) : bool :=
+  let '(t', i', expected) :=
+    match co_mut o with
+    | None => (k_tx k, k_idx k, true)
+    | Some m => let '(t', i') := apply_tx m (k_tx k) (k_idx k) in
+                (t', i', negb (committed_in (alg_of (k_ht k)) (k_ht k) (sign_ctx_of (k_tx k) (k_idx k)) m))
+    end in
+  (co_lock_via o <? 3) && (co_unlock_via o <? 3) &&
+  Bool.eqb expected (co_accept o) &&
+  match call_of t' (N.of_nat i') (k_flags k) o with
+  | None => false
+  | Some cl => verdict_is (call_verdict (mk_sigops_loud orc) cl) (co_accept o)
+  end.
+
 Definition check (k : case) : bool :=
   let orc := table_oracle k in
   let pre := model_preimage (k_tx k) (k_idx k) (k_ht k) in
   sha_is pre (k_pre_sha k) && nodup_b (tx_outs (k_tx k)) && check_signing k &&
   forallb (fun s => enc_ok (k_flags k) (k_tx k) (k_ht k) (k_idx k) s &&
                     verdict_is (run_model orc (k_tx k) (si_idx s) (k_flags k)) true) (k_signed k) &&
-  forallb (check_mut k orc pre) (k_muts k).
+  forallb (check_mut k orc pre) (k_muts k) &&
+  forallb (check_ctx k orc) (k_ctxs k).
 
 Definition mismatches := mismatches_with check.
